@@ -82,8 +82,8 @@ func VerifyFunction(prog *ssa.Program, db *ContractDB, fn *ssa.Function, fc *Fun
 	enc.epochHwm[0] = st.hwm
 	enc.noLocksAtEntry = fc.NoLocks
 	fv.params = map[string]Value{}
-	for _, p := range fn.Params {
-		v := st.freshValue(p.Name(), p.Type())
+	for pi, p := range fn.Params {
+		v := st.freshValue(smtParamHint(fn, pi, p.Name()), p.Type())
 		st.assumeRefs(v)
 		if _, isSlice := p.Type().Underlying().(*types.Slice); isSlice && len(v.L) == 4 {
 			// a slice with capacity points into an array (only the nil slice and empty slices made
@@ -94,9 +94,10 @@ func VerifyFunction(prog *ssa.Program, db *ContractDB, fn *ssa.Function, fc *Fun
 		st.regs[p] = v
 		fv.params[p.Name()] = v
 	}
-	for _, fvv := range fn.FreeVars {
+	fv.localHints = smtLocalHints(fn)
+	for fi, fvv := range fn.FreeVars {
 		pt := fvv.Type().Underlying().(*types.Pointer)
-		v := st.freshValue(fvv.Name(), pt.Elem())
+		v := st.freshValue(smtFreeVarHint(fn, fi, fvv.Name()), pt.Elem())
 		st.assumeRefs(v)
 		st.cells[fvv] = v
 	}
